@@ -224,6 +224,13 @@ OnAlloc(e) ==
                          arrived == (e.fn1 - e.fn0 + 1) * ns
                      IN arrived <= moved /\ moved < arrived + ns + 16 + 2 * fence,
                 "C18", "ReservationArrivesInBucket", <<o.type, o.bd, e.sz, e.cap0, e.cap1, e.fn0, e.fn1>>)
+       \* memory_pool::next_capacity(): "capacity_left() will increase by this amount" when the pool grows - the node
+       \* that made it grow is taken from the new block.  (Small-node pools announce the remainder of a partial chunk
+       \* in bytes, not in whole nodes: announced - brought stays below one node plus a chunk header there.)
+       \cup Chk(~(o.fam = "pool" /\ ok /\ e.op = "n" /\ e.ups = 1 /\ e.upf = 0 /\ o.ns > 0)
+                  \/ LET brought == e.cap1 - e.cap0 + o.ns
+                     IN IF o.type = "small" THEN brought <= e.ncap0 /\ e.ncap0 < brought + o.ns + 64 ELSE brought = e.ncap0,
+                "C18", "GrowthBringsWhatWasAnnounced", <<o.type, o.ns, e.cap0, e.cap1, e.ncap0>>)
        \* a request that failed without obtaining a block consumed nothing: the figures stay as they were
        \* (a memory_stack that moved on to a cached block before it failed, and a collection that handed the rest
        \* of its block to the bucket before its source refused, did consume something: cap1 # cap0 there)
